@@ -22,7 +22,11 @@ def _thread_creations(fn):
     return out
 
 
-def check_dispatcher(ctx, rule: str, wakeups=True, consumers=True):
+def check_dispatcher(ctx, rule: str, wakeups=True, consumers=True, reconnect=None, threads=("dispatcher", "receiver")):
+    """consumers: FIFO / one consumer function / one item at a time; reconnect: one consumer thread across start/stop/start
+    (defaults to `consumers`); threads: which thread functions get the wake-up rule."""
+    if reconnect is None:
+        reconnect = consumers
     repo = ctx.repo
     cls = repo.cls("ProtocolDispatcher")
     start = repo.method("ProtocolDispatcher", "start", inherited=False)
@@ -34,7 +38,7 @@ def check_dispatcher(ctx, rule: str, wakeups=True, consumers=True):
     ctx.require(len(creations) >= 2, "ProtocolDispatcher.start: fewer than two thread creations found")
     stop_names = [call_name(c) or "" for c in calls_in(stop.node)]
     stop_assigns = {dotted(t): norm(st.value) for st in rules.func_stmts(stop.node) if isinstance(st, ast.Assign) for t in st.targets}
-    if consumers:
+    if reconnect:
         for field, target, st in creations:
             node = next(n for n in scfg.real_nodes() if n.ast is st)
             joined = f"{field}.join" in stop_names
@@ -61,6 +65,7 @@ def check_dispatcher(ctx, rule: str, wakeups=True, consumers=True):
                 ok = flag_set and bool(jn) and any(cfg2.dominates(s, jn[0]) for s in sets) and any(cfg2.dominates(f, jn[0]) for f in fl_nodes)
                 ctx.ob(rule, "ProtocolDispatcher.stop", ok, f"stop() sets the stop flag and wakes {field} before joining it" if ok else
                        f"stop() joins {field} without first setting its stop flag and trigger: the join never returns", key="stop-protocol " + field, where=stop.where)
+    if consumers:
         # exactly one consumer function of the dispatch queue, FIFO, one at a time
         init = repo.method("ProtocolDispatcher", "__init__", inherited=False)
         ctor = None
@@ -75,6 +80,8 @@ def check_dispatcher(ctx, rule: str, wakeups=True, consumers=True):
     disp = repo.method("ProtocolDispatcher", "_dispatcher_thread_function", inherited=False)
     recv = repo.method("ProtocolDispatcher", "_receiver_thread_function", inherited=False)
     for f, trig, work in ((disp, "self._dispatcher_thread_trigger", "self._dispatcher_target"), (recv, "self._receiver_thread_trigger", "self._receiver_target")):
+        if ("dispatcher" if f is disp else "receiver") not in threads:
+            continue
         ctx.touch(f)
         cfg = cfg_of(f.node)
         waits = [n for n in cfg.real_nodes() if any(c == f"{trig}.wait" for c in n.call_names())]
